@@ -158,6 +158,19 @@ def variants(mod, t, v, cxer_text, k=1, cap=400):
             for lab, txt in (('unknown_ext_simple', '<zzUnknown>1</zzUnknown>'), ('unknown_ext_nested', '<zzUnknown><inner><deep/></inner>text</zzUnknown>'),
                              ('unknown_ext_empty', '<zzUnknown/>')):
                 out.append((lab, serialize(root, {(id(e), len(e.children)): txt})))
+    # V7: character references in character-string content (X.693 8.? / XML 4.1): the first character, if it is a plain one,
+    # written as &#xH; and &#D; (the decoder's reference handling has its own UTF-8 length ladder)
+    CHARSTR = ('UTF8String', 'IA5String', 'VisibleString', 'PrintableString', 'NumericString', 'BMPString', 'UniversalString')
+    for e, kind, bt in ann:
+        if kind in CHARSTR and len(e.children) == 1 and isinstance(e.children[0], str) and e.children[0]:
+            txt = e.children[0]
+            c0 = txt[0]
+            if c0 in '&<>' or ord(c0) < 0x20 or 0xd800 <= ord(c0) <= 0xdfff:
+                continue
+            for lab, ref in (('charref_hex', '&#x%x;' % ord(c0)), ('charref_dec', '&#%d;' % ord(c0))):
+                e.children[0] = ref + txt[1:]
+                out.append((lab, serialize(root)))
+            e.children[0] = txt
     # document-level
     out.append(('lead_ws', ' \n' + cxer_text))
     out.append(('lead_comment', '<!-- hello -->' + cxer_text))
